@@ -46,8 +46,11 @@ func drawDecodeOptions(t *rapid.T, c *core.Ctx, f *model.File) gen.Config {
 			if n.Kind == model.KEnum && n.EnumType == "integer" {
 				bad = "enums.typed_integer_min_sized"
 			}
-			if n.Kind == model.KArray && n.Items != nil && n.Items.Kind == model.KInteger && (n.Items.Maximum != nil || n.Items.ExclMax != nil) {
-				bad = "minsized.uint8_array_items"
+			if n.Kind == model.KArray && n.Items != nil {
+				// inline or through a named definition (type X uint8 gives []X the same byte-string treatment)
+				if it := n.Items.Resolve(); it != nil && it.Kind == model.KInteger && (it.Maximum != nil || it.ExclMax != nil) {
+					bad = "minsized.uint8_array_items"
+				}
 			}
 		}
 		model.Walk(f.Root, visit)
